@@ -188,14 +188,9 @@ lemma foldl_max_le (a : Int) (l : List Int) (h : ∀ x ∈ l, x ≤ a) : l.foldl
     simp only [List.foldl_cons, max_eq_left hx]
     exact ih a fun y hy => h y (by simp [hy])
 
-/-- The largest block produced by an integer chunk size `1 ≤ c ≤ s` is exactly `c`: this links the loop's choice
-(`autoLoop_within`: product of the chosen sizes ≤ limit, each in `1..n`) to the block sizes `validate_chunks` returns.
-
-Full end-to-end statement for *mixed* specifications (not proved; observed by the conformance oracle
-`auto-chunks-exceed-limit`): `validateChunks shape ch (some M) = .ok v` with all dimensions ≥ 1, a well-formed `ch` mixing
-'auto' with fixed ints / tuples and `∏ fixed ≤ M` implies `∏ᵢ maxOf vᵢ ≤ M`.  The all-automatic case (an integer `chunks`)
-is proved end to end below (`auto_all_within_limit`), mixes in `auto_mixed_within_limit`; this lemma keeps its
-`_partial` name because it is only the per-dimension link. -/
+/-- The largest block produced by an integer chunk size `1 ≤ c ≤ s` is exactly `c`: the per-dimension link between the
+loop's choice and the block sizes `validate_chunks` returns (used by `auto_all_within_limit` / `auto_mixed_within_limit`,
+which prove the limit clause end to end; this lemma keeps its `_partial` name because on its own it is only that link). -/
 theorem fill_int_max_partial (s c : Int) (hc : 1 ≤ c) (hcs : c ≤ s) :
     ∃ v, fillDim s (.int c) = .ok v ∧ maxOf v = c := by
   obtain ⟨v, hv, _, hmem, hform⟩ := fill_int_spec s c (by omega) hc
@@ -1184,7 +1179,7 @@ lemma zipWith_normalize_map (ds : List (Int × Spec)) :
 
 /-- **Automatic chunking end to end, mixed specifications**: every dimension ≥ 1; each specification 'auto', a positive
 int, -1, or an explicit tuple of positive ints summing to the dimension; at least one 'auto'; and a valid chunking
-exists (the product of the fixed dimensions' largest chunks is within the limit).  Then `validate_chunks` succeeds, its
+exists in the sense the code uses: the product of the fixed dimensions' NOMINAL chunk sizes (`fixedCur`: the int `c`\nitself, even when `c` exceeds the dimension) is within the limit.  Then `validate_chunks` succeeds, its
 chunks are ≥ 1 and sum to the shape, and the largest block (product of the largest chunk per dimension) has at most
 `M` elements. -/
 theorem auto_mixed_within_limit (ds : List (Int × Spec)) (M : Int) (hwf : ∀ d ∈ ds, WF d)
